@@ -1,4 +1,5 @@
 import ArgoVerif.Props.SchedCommon
+import ArgoVerif.Props.C06Stop
 /-
 Props.C06 — stream join/free and ABT_finalize wait for all work: the per-pool count of blocked units that drives the
 "may this scheduler stop?" decision (ABTI_sched_has_to_stop / has_unit: size + num_blocked) is exact.
